@@ -60,6 +60,18 @@ Theorem C09_gc_order_refuted :
 Proof. exact gc_noF13_order_dependent. Qed.
 Print Assumptions C09_gc_order_refuted.
 
+(* Reopening the store right after GC (index.json holds the rebuilt index) gives the same
+   storage, the same references and the same graph, hence the same predecessors *)
+Theorem C09_gc_reopen :
+  forall succ subject manifest, acyclic succ -> subject_listed succ subject ->
+  forall kl ords st st', same_elements ords (candidates (idx st)) ->
+  gc succ subject manifest cfg_fixed kl ords st = (st', Ok) ->
+  let st2 := fst (step succ subject manifest cfg_fixed kl st' OReopen) in
+  blobs st2 = blobs st' /\ idx st2 = idx st' /\ strays st2 = strays st' /\
+  (forall x, In x (gnodes st2) <-> In x (gnodes st')).
+Proof. exact gc_reopen_final. Qed.
+Print Assumptions C09_gc_reopen.
+
 (* ---- Delete ---- *)
 
 (* Delete x with AutoGC on, x stored: for every iteration order it returns Ok and removes
